@@ -61,7 +61,7 @@ def generate(rng, tier, shard, nshards):
                 reg['meta'] = m if m else reg.get('meta')
                 reg['visual'] = gen.rich_visual(rng)
                 if reg['cls'] == 'TextPixelRegion' and rng.random() < 0.7:
-                    reg['visual']['rotation'] = rng.uniform(-180, 180)
+                    reg['visual']['rotation'] = rng.choice([rng.uniform(-180, 180), 0, 0.0, 90.0])
             if reg.get('meta') is None:
                 reg.pop('meta', None)
             yield {'lane': 'pix2sky2pix:' + reg['cls'], 'region': reg, 'wcs': w, 'rs': rng.randrange(2 ** 31)}
@@ -109,7 +109,7 @@ def build_sky_leaf(d, w):
         sp.pop('meta', None)
     sp['visual'] = gen.rich_visual(prng)
     if d['cls'] == 'TextSkyRegion' and prng.random() < 0.7:
-        sp['visual']['rotation'] = prng.uniform(-180, 180)
+        sp['visual']['rotation'] = prng.choice([prng.uniform(-180, 180), 0, 0.0, 90.0])
     reg = S.build(sp)
     if c.frame.name == d['frame'] and c.frame.name == 'fk5' and abs(c.frame.equinox.jyear - 2000.0) > 1e-9:
         # re-create the coordinates in the WCS's exact frame (S.sky() specs name frames without attributes)
@@ -300,6 +300,19 @@ def run_case(case, obs):
         fp0 = S.fingerprint(sky)
         pix = sky.to_pixel(w)
         check_counterpart(obs, sky, pix, 'to_pixel')
+        if type(sky).__name__ == 'TextSkyRegion' and 'rotation' in sky.visual:
+            # independent expectation: the rotation is measured from the longitude axis on the sky and from +x in the image,
+            # so it advances by (direction of local north in the image) - 90 deg; north from astropy, not from the library's helper
+            import astropy.units as u
+            c0 = sky.center
+            n1 = c0.directional_offset_by(0 * u.deg, 1 * u.arcsec)
+            x0_, y0_ = w.world_to_pixel(c0)
+            x1_, y1_ = w.world_to_pixel(n1)
+            north = math.degrees(math.atan2(float(y1_ - y0_), float(x1_ - x0_)))
+            exp_rot = float(sky.visual['rotation']) + north - 90.0
+            got_rot = pix.visual.get('rotation')
+            obs.check(got_rot is not None and ang_diff_deg(float(got_rot), exp_rot) <= 1e-4, 'text-rotation-not-converted',
+                      f'TextSkyRegion rotation {sky.visual["rotation"]!r} became {got_rot!r} in the image, expected {exp_rot!r}', 'text-rotation')
         back = pix.to_sky(w)
         d = case['skyreg']
         fr = d['r1']['frame'] if d.get('compound') else d['frame']
